@@ -55,7 +55,7 @@ def run_doc(job):
     rc = _convert(wb, fmt, False, job.get("kwargs"))
     rp = _convert(wb, fmt, True, job.get("kwargs"))
     ev = {"ev": "doc", "status": rc["status"] if rc["status"] == rp["status"] else f"{rc['status']}/{rp['status']}",
-          "c01": {"c": dict(NOFACTS), "p": dict(NOFACTS)}, "channels": [], "skeleton_same": True, "structure_equal": True, "texts_c": [], "texts_p": []}
+          "c01": {"c": dict(NOFACTS), "p": dict(NOFACTS)}, "channels": [], "classes": list(job.get("classes") or []), "default_place": "n/a", "skeleton_same": True, "structure_equal": True, "texts_c": [], "texts_p": []}
     if rc["status"] == "ok" and rp["status"] == "ok":
         ev["c01"] = {"c": facts(rc["xform"]), "p": facts(rp["xform"])}
         if ev["c01"]["c"]["error"].startswith("projection_unavailable") or ev["c01"]["p"]["error"].startswith("projection_unavailable"):
@@ -66,6 +66,8 @@ def run_doc(job):
             recp = xmlgen.recover(rp["xform"], chans) if okp else {}
             for ch, text in chans.items():
                 ev["channels"].append({"name": ch, "src": xmlgen.src_elem(ch, text), "rec": recc.get(ch) or {"k": "none"}, "rec_p": recp.get(ch) or {"k": "none"}})
+            if "default" in chans and okc:
+                ev["default_place"] = xmlgen.default_place(rc["xform"])
             wi = "label_instance" in chans
             key = json.dumps([job.get("only"), fmt, wi])
             if key not in _BENIGN:
